@@ -455,6 +455,8 @@ static const char *scripted[] = {
   "P0.1 F P0.1 F P1.1 F P0.1 F C P2.1",   /* several levels, compaction with outputs */
   "P0.1! P1.1 O P2.1 P0.1",               /* recovery in the middle */
   "B[P0.1,D1,P2.2]! P1.2 P1.2 P1.2 P1.2! O P0.1!",
+  "P0.1 P1.3 P0.1! P2.3 P1.1",            /* fragmented log records with acknowledged writes around them */
+  "P0.1! P2.3",                           /* a fragmented record that is still only in the log at the end */
   NULL
 };
 
@@ -529,6 +531,9 @@ main(int argc, char **argv) {
   add_op("P0.1");
   add_op("P1.1!");
   add_op("P0.2");
+  if (drv_opt_long("wide", 0))
+    add_op("P2.3");               /* 70 KB value: the log record spans three 32 KiB blocks (FIRST/MIDDLE/LAST);
+                                     quick has such records in a scripted history only */
   add_op("B[P0.1,D1,P2.1]");
   add_op("F");
   add_op("C");
